@@ -212,10 +212,9 @@ def ensure(tier="quick", log=sys.stderr):
             os.remove(out)
         # drop older caches (disk hygiene)
         croot = os.path.join(BUILD, "cache")
-        for d in os.listdir(croot):
-            p = os.path.join(croot, d)
-            if os.path.isdir(p) and d != key:
-                subprocess.run(["rm", "-rf", p])
+        dirs = sorted((os.path.getmtime(os.path.join(croot, d)), d) for d in os.listdir(croot) if os.path.isdir(os.path.join(croot, d)) and d != key)
+        for _, d in dirs[:-2]:  # keep the two most recent other caches (scratch variants alternate with /repo)
+            subprocess.run(["rm", "-rf", os.path.join(croot, d)])
         return fb, fbd, info
     finally:
         fcntl.flock(lock, fcntl.LOCK_UN)
